@@ -37,6 +37,7 @@ class TranslateError(Exception):
 
 TOKEN_RE = re.compile(r"""
     (?P<ws>\s+)
+  | (?P<flt>[0-9][0-9_]*\.[0-9][0-9_]*(?:f64)?)
   | (?P<num>[0-9][0-9_]*(?:[iu](?:8|16|32|64|128|size))?)
   | (?P<id>[A-Za-z_][A-Za-z0-9_]*)
   | (?P<op>::|&&|\|\||>=|<=|==|!=|->|=>|[-+*/%<>=!.,;:(){}\[\]&|?#'@$^~])
@@ -162,7 +163,12 @@ class P:
         while self.peek()[1] in ("*", "/"):
             op = self.take()[1]
             b = self.p_unary()
-            a = ("Z", "(%s * %s)" % (self.z(a), self.z(b))) if op == "*" else ("Z", "(Z.quot %s %s)" % (self.z(a), self.z(b)))
+            if a[0] == "F" or b[0] == "F":
+                if a[0] != b[0]:
+                    raise TranslateError("mixed float/integer arithmetic")
+                a = ("F", "(%s mode_NE %s %s)" % ("Bmult" if op == "*" else "Bdiv", a[1], b[1]))
+            else:
+                a = ("Z", "(%s * %s)" % (self.z(a), self.z(b))) if op == "*" else ("Z", "(Z.quot %s %s)" % (self.z(a), self.z(b)))
         return a
 
     def p_unary(self):
@@ -179,6 +185,14 @@ class P:
         while self.peek() == ("id", "as"):
             self.take()
             ty = self.take()[1]
+            if ty == "f64":
+                a = ("F", "(of_Z %s)" % self.z(a))
+                continue
+            if a[0] == "F":
+                if ty != "u64":
+                    raise TranslateError("float cast to %s is outside the vocabulary" % ty)
+                a = ("Z", "(f64_to_u64 %s)" % a[1])
+                continue
             if ty not in INT_TYPES:
                 raise TranslateError("cast to %s is outside the vocabulary" % ty)
             a = ("Z", "(%s %s)" % (INT_TYPES[ty], self.z(a)))
@@ -242,6 +256,12 @@ class P:
             return e
         if val == "{":
             return self.block()
+        if kind == "flt":
+            self.take()
+            m = re.match(r"([0-9_]+)\.([0-9_]+)", val)
+            if int(m.group(2).replace("_", "")) != 0:
+                raise TranslateError("non-integral float literal " + val)
+            return ("F", "(of_Z %s)" % m.group(1).replace("_", ""))
         if kind == "num":
             self.take()
             return ("Z", re.sub(r"[iu](8|16|32|64|128|size)$", "", val).replace("_", ""))
@@ -285,6 +305,13 @@ class P:
                     return ("Z", "i64max")
                 if val == "i64" and member == "MIN":
                     return ("Z", "i64min")
+                if val == "u64" and member == "MAX":
+                    return ("Z", "u64max")
+                if val == "Duration" and member == "from_secs":
+                    self.take("(")
+                    e = self.expr()
+                    self.take(")")
+                    return ("Z", "(%s * 1000000000)" % self.z(e))
                 if val == "Duration" and member == "ZERO":
                     return ("Z", "0")
                 if val == "Duration" and member == "from_nanos":
@@ -549,7 +576,120 @@ def translate(src):
     return "\n".join(out)
 
 
+def translate_rate(src):
+    """Rate::from_count_and_period: `if <guard> { return Rate { period: <dur> }; } let period_ns = <expr>; Rate { period: Duration::from_nanos(period_ns) }`"""
+    src = strip_comments(src)
+    at = src.find("fn from_count_and_period")
+    if at < 0:
+        raise TranslateError("fn from_count_and_period not found")
+    toks = lex(src[at:])
+    lo, hi = find_fn(toks, "from_count_and_period")
+    params = [toks[i][1] for i in range(lo) if toks[i][0] == "id" and toks[i + 1][1] == ":"]
+    if params != ["count", "period_seconds"]:
+        raise TranslateError("unexpected parameters %s" % params)
+    body = toks[lo + 1:hi]
+    env = {"count": ("Z", "count"), "period_seconds": ("Z", "period_seconds")}
+
+    def rate_literal(ts):
+        """Rate { period: <expr> } -> ns expression"""
+        if [t[1] for t in ts[:4]] != ["Rate", "{", "period", ":"] or ts[-1][1] != "}":
+            raise TranslateError("expected a `Rate { period: .. }` literal")
+        inner = ts[4:-1]
+        if inner and inner[-1][1] == ",":
+            inner = inner[:-1]
+        p = P(inner, dict(env))
+        e = p.expr()
+        if p.i != len(p.t):
+            raise TranslateError("Rate literal not fully parsed")
+        return p.z(e)
+    if body[0] != ("id", "if"):
+        raise TranslateError("from_count_and_period does not start with its validity guard")
+    j = 1
+    while body[j][1] != "{":
+        j += 1
+    p = P(body[1:j], dict(env))
+    cond = p.expr()
+    if p.i != len(p.t):
+        raise TranslateError("guard not fully parsed")
+    k = matching(body, j, "{", "}")
+    blk = body[j + 1:k]
+    if blk[0] != ("id", "return") or blk[-1][1] != ";":
+        raise TranslateError("guard block is not `return Rate {..};`")
+    invalid = rate_literal(blk[1:-1])
+    rest = body[k + 1:]
+    lets = []
+    i = 0
+    while rest[i] == ("id", "let"):
+        depth, e = 0, i
+        while True:
+            v = rest[e][1]
+            if v in "({[":
+                depth += 1
+            elif v in ")}]":
+                depth -= 1
+            elif v == ";" and depth == 0:
+                break
+            e += 1
+        p = P(rest[i:e + 1], env)
+        lets.append(p.let_stmt())
+        if p.i != len(p.t):
+            raise TranslateError("let not fully parsed")
+        env = p.env
+        i = e + 1
+    valid = rate_literal(rest[i:])
+    txt = valid
+    for name, e in reversed(lets):
+        if e[0] != "Z":
+            raise TranslateError("non-integer let in from_count_and_period")
+        txt = "(let %s := %s in %s)" % (name, e[1], txt)
+    out = ["(* GENERATED by tools/extract_limiter.py from throttlecrab/src/core/rate/mod.rs of /repo on every run.",
+           "   Do not edit: Float/RateTie.v proves that this definition equals the Flocq model of Float/Rate64.v. *)",
+           "From Coq Require Import ZArith Bool.", "From Flocq Require Import Core BinarySingleNaN.",
+           "Require Import TC.Float.Rate64.", "Open Scope Z_scope.", "Open Scope bool_scope.", "",
+           "(* Rate::from_count_and_period(count, period_seconds).period() in nanoseconds *)",
+           "Definition gen_rate (count period_seconds : Z) : Z :=",
+           "  if %s then %s else %s." % (p_b(cond), invalid, txt), ""]
+    return "\n".join(out)
+
+
+def p_b(e):
+    if e[0] != "bool":
+        raise TranslateError("boolean expected")
+    return e[1]
+
+
+RATE_SRC = os.path.join(REPO, "throttlecrab/src/core/rate/mod.rs")
+RATE_OUT = os.path.normpath(os.path.join(HERE, "..", "coq", "Generated", "RateGen.v"))
+RATE_PINNED = os.path.join(HERE, "t1_rategen_pinned.v")
+
+
+def main_rate():
+    note = None
+    try:
+        with open(RATE_SRC) as f:
+            text = translate_rate(f.read())
+    except (OSError, TranslateError, StopIteration, IndexError) as e:
+        note = "fallback rate constructor (text of the last verified tree; T2 is the only tie): %s" % (e,)
+        with open(RATE_PINNED) as f:
+            text = f.read()
+    old = None
+    if os.path.exists(RATE_OUT):
+        with open(RATE_OUT) as f:
+            old = f.read()
+    if old != text:
+        with open(RATE_OUT, "w") as f:
+            f.write(text)
+    if note:
+        print(note)
+    if "--pin" in sys.argv and not note:
+        with open(RATE_PINNED, "w") as f:
+            f.write(text)
+    if "--print" in sys.argv:
+        print(text)
+
+
 def main():
+    main_rate()
     note = None
     try:
         with open(SRC) as f:
